@@ -114,6 +114,27 @@ def run(ck):
             ck.violation("V3.mark-has-request-values", "V3|assembleVaryKey|value-not-appended", s.where(),
                          "assembleVaryKey no longer appends both the Vary item name and the request header value to the mark")
 
+    ck.rule("V3b the mark is an injective encoding of the request values: the value placed between the quotes of `name=\"value\"` is the result of "
+            "rfc1738_do_escape(value, flags) whose constant flags escape the unsafe set (so an embedded '\"' cannot end the value early) and do NOT carry "
+            "RFC1738_ESCAPE_NOPERCENT (so a literal '%' is escaped and `en US` / `en%20US` get different marks); the append of the value is preceded by that escape")
+    esc = [(b, ev) for b in ak.blocks.values() for ev in b["ev"] if ev.get("e") == "asg" and E.strip(ev.get("rhs")).get("k") == "call" and E.strip(ev["rhs"]).get("f") == "rfc1738_do_escape"]
+    ck.need(len(esc) >= 1, "C13: assembleVaryKey no longer escapes the header value with rfc1738_do_escape()")
+    for b, ev in esc:
+        fl_ = E.const(E.strip(ev["rhs"])["a"][1])
+        tgt = E.root_decl(ev["lhs"])[1]
+        if fl_ is not None and (fl_ & 2) and not (fl_ & 256):
+            ck.ok("V3b.mark-injective", ak.where(ev["l"]), "value escaped with flags %d (unsafe set incl. '\"' and '%%')" % fl_)
+        else:
+            ck.violation("V3b.mark-injective", "V3b|assembleVaryKey|escape-flags", ak.where(ev["l"]),
+                         "the Vary mark value is escaped with flags %s: %s, so two different header values can produce the same mark and a variant is served to a "
+                         "request it does not match" % (fl_, "a literal '%' is left unescaped (RFC1738_ESCAPE_NOPERCENT)" if fl_ is not None and fl_ & 256 else "the unsafe set ('\"', '%') is not escaped"))
+        efl = ck.flow(ak, markers={"escaped": lambda e, ev=ev: e is ev})
+        for st in efl.find(ev_call("SBuf::append", arg={0: E.m_is_ref(tgt)}, nargs=1)):
+            if st.passed("escaped"):
+                ck.ok("V3b.mark-injective", st.where(), "the value is appended after it was escaped")
+            else:
+                ck.violation("V3b.mark-injective", "V3b|assembleVaryKey|unescaped-append", st.where(), "the header value can be appended to the mark without having been escaped", efl.witness(st))
+
     # ------------------------------------------------------------------ V4: Vary: *
     ck.rule("V4 Vary:* : assembleVaryKey RESPONSE(item == \"*\" -> mark = \"*\"); HttpStateData::haveParsedReplyHeaders RESPONSE(mark == \"*\" -> EBIT_SET ENTRY_REVALIDATE_ALWAYS), "
             "RESPONSE(mark empty -> makePrivate) and no makePublic/cacheNegatively with an empty mark (C12 F2.revalidate-always then forces revalidation of every hit)")
